@@ -246,6 +246,22 @@ func (h *Hang) SelfDeadlock(outer, inner string) bool {
 	return h != nil && strings.Contains(h.Stack, "sync.(*Mutex).Lock") && strings.Contains(h.Stack, outer) && strings.Contains(h.Stack, inner)
 }
 
+// FindStack returns the stack of a goroutine whose trace contains every one of subs ("" if none).
+func FindStack(subs ...string) string {
+	buf := make([]byte, 8<<20)
+	buf = buf[:runtime.Stack(buf, true)]
+next:
+	for _, g := range strings.Split(string(buf), "\n\n") {
+		for _, sub := range subs {
+			if !strings.Contains(g, sub) {
+				continue next
+			}
+		}
+		return g
+	}
+	return ""
+}
+
 var callSeq uint64
 
 // call runs f (a call into the pool) on its own goroutine under the watchdog.
